@@ -168,23 +168,39 @@ def run(ctx):
     ctx.check(oks, "try_offset:shape", "try_offset does not have exactly one Some path and otherwise None paths", loc(b))
     if oks:
         sp = some[0]
-        # the guard expressions: comparisons of two sums with 0 and 8
+        # the coordinate sums: the smallest subterms that combine the square with exactly one of the offsets
+        def has_(x, leaf):
+            return sym.contains(x, lambda y: y == leaf)
+
+        def minimal_sums(off, other):
+            found = []
+
+            def rec(x):
+                if not isinstance(x, tuple) or not x:
+                    return
+                ok_here = has_(x, P(off)) and has_(x, P("self")) and not has_(x, P(other))
+                kids = [y for y in x[1:] if isinstance(y, tuple)]
+                if x[0] in ("call",):
+                    kids = list(x[2]) if len(x) > 2 else []
+                inner = [y for y in kids if isinstance(y, tuple) and y and has_(y, P(off)) and has_(y, P("self")) and not has_(y, P(other))]
+                if ok_here and not inner:
+                    if x not in found:
+                        found.append(x)
+                    return
+                for y in kids:
+                    rec(y)
+            for c in sp.conds:
+                rec(c[0])
+            return found
         sums = {}
-        for c in sp.conds:
-            e = c[0]
-            if e[0] == "bin" and e[1] in ("Lt", "Ge", "Le", "Gt") and e[3][0] == "int":
-                sums.setdefault(e[2], []).append((e[1], e[3][1], c[1]))
-            elif e[0] == "bin" and e[1] in ("Lt", "Ge", "Le", "Gt") and e[2][0] == "int":
-                sums.setdefault(e[3], []).append((e[1], e[2][1], c[1]))
-        good = 0
         bad = []
-        for se_, guards in sums.items():
-            uses_f = sym.contains(se_, lambda x: x == P("file_offset"))
-            uses_r = sym.contains(se_, lambda x: x == P("rank_offset"))
-            if uses_f == uses_r:
-                bad.append("sum mixes or lacks offsets")
+        good = 0
+        for off, other, uses_f in (("file_offset", "rank_offset", True), ("rank_offset", "file_offset", False)):
+            cands = minimal_sums(off, other)
+            if len(cands) != 1:
+                bad.append("%d candidate coordinate sums for %s" % (len(cands), off))
                 continue
-            off = "file_offset" if uses_f else "rank_offset"
+            se_ = cands[0]
             for s in range(64):
                 coord = s % 8 if uses_f else s // 8
                 for d in range(-128, 128):
@@ -198,17 +214,26 @@ def run(ctx):
                         break
                 if bad:
                     break
-            # the guards on the Some path: the interval the path's decisions leave for the sum must be 0..=7
-            from ..ranges import Ranger
-            rgr = Ranger(f, {})
-            bd = rgr.bounds(se_, sp.conds)
-            if bd != (0, 7):
-                bad.append(("guard range", bd))
-            else:
-                good += 1
+            sums[off] = se_
+            good += 1
+        # the decisions of the Some path, as a function of the two sums, hold exactly on 0..=7 x 0..=7
+        if good == 2 and not bad:
+            for vf in range(-128, 135):
+                for vr in range(-128, 135):
+                    env = {sums["file_offset"]: vf, sums["rank_offset"]: vr}
+                    try:
+                        holds = all(bool(conc.Conc(env, NV).ev(c[0])) == bool(c[1]) for c in sp.conds if isinstance(c[1], int))
+                    except Stuck as e:
+                        bad.append("guard not a function of the two sums: %s" % e)
+                        break
+                    if holds != (0 <= vf <= 7 and 0 <= vr <= 7):
+                        bad.append(("guard", vf, vr, holds))
+                        break
+                if bad:
+                    break
         ctx.check(good == 2 and not bad, "try_offset:sums+guards",
                   "try_offset's coordinate sums are not exactly file+df / rank+dr guarded by 0..=7: %s" % bad[:3], loc(b),
-                  sample={"try_offset": "Some iff 0<=file+df<8 and 0<=rank+dr<8", "pairs checked": 2 * 64 * 256})
+                  sample={"try_offset": "Some iff 0<=file+df<8 and 0<=rank+dr<8", "pairs checked": 2 * 64 * 256, "guard points": 263 * 263})
         # the Some value is new(File(file+df), Rank(rank+dr)): evaluate over in-range combinations
         badv = []
         for s in range(64):
@@ -224,12 +249,6 @@ def run(ctx):
                         if v != ("some", 8 * r + fl):
                             badv.append((s, df, dr, v))
         ctx.check(not badv, "try_offset:value", "try_offset's Some value is not the square at (file+df, rank+dr): %s" % badv[:3], loc(b))
-        # None paths: each decided by one guard failing
-        for p in none:
-            last = p.conds[-1]
-            ok_last = last[0][0] == "bin" and (last[0][2] in sums or last[0][3] in sums)
-            ctx.check(ok_last, "try_offset:none-by-guard",
-                      "a None path of try_offset is not decided by a range guard on a coordinate sum", loc(b))
     # ---- try_index tables
     ctx.rule("try_index-tables")
     for en, n in ENUMS.items():
@@ -331,10 +350,23 @@ def run(ctx):
             ch = lambda k: (lambda x: x == ("next", S, k) or x == ("nth", S, k))
             uses0 = sym.contains(r, ch(0))
             uses1 = sym.contains(r, ch(1))
-            # order: file from char 0 (low bits), rank from char 1 (shifted)
+            # the square index as a function of the two decoded coordinates: 8 * (value from char 1) + (value from char 0)
             v = dict(r[4])["0"]
-            shl = sym.subterms(v, lambda x: x[0] == "bin" and x[1] == "Shl")
-            rank_from_1 = bool(shl) and sym.contains(shl[0], ch(1)) and not sym.contains(shl[0], ch(0))
+            l0 = sym.subterms(v, lambda x: x[0] == "discr" and sym.contains(x, ch(0)) and not sym.contains(x, ch(1)))
+            l1 = sym.subterms(v, lambda x: x[0] == "discr" and sym.contains(x, ch(1)) and not sym.contains(x, ch(0)))
+            l0 = [x for x in l0 if not any(y is not x and y[0] == "discr" and sym.contains(x[1], lambda z: z == y) for y in l0)]
+            l1 = [x for x in l1 if not any(y is not x and y[0] == "discr" and sym.contains(x[1], lambda z: z == y) for y in l1)]
+            rank_from_1 = len(set(l0)) == 1 and len(set(l1)) == 1
+            if rank_from_1:
+                idx = v[2][0] if v[0] == "call" and v[1].endswith("index_const") and len(v[2]) == 1 else v
+                for fv in range(8):
+                    for rv in range(8):
+                        try:
+                            got = conc.Conc({l0[0]: fv, l1[0]: rv}, NV).ev(idx)
+                        except Stuck:
+                            got = None
+                        if got != 8 * rv + fv:
+                            rank_from_1 = False
             ctx.check(third_none and uses0 and uses1 and rank_from_1, "Square::from_str",
                       "Square::from_str does not read (file char, rank char) and then require end of input", loc(b),
                       sample={"Square::from_str": "file=char0, rank=char1, end"})
